@@ -590,7 +590,14 @@ class World:
             self.flag("C03", "I4", "%s/%s/plotprofile-raises" % (cls, ctx.op["k"]),
                       {"exc": repr(ex)})
             return
-        phi0 = np.asarray(prof[-1])
+        try:
+            phi0 = np.asarray(prof[-1], dtype=float)
+            if phi0.shape != full.shape:
+                raise ValueError("profile shape %r" % (phi0.shape,))
+        except Exception as ex:
+            self.flag("C03", "I4", "%s/%s/plotprofile-malformed" % (cls, ctx.op["k"]),
+                      {"exc": repr(ex)})
+            return
         for side in A.SIDES:
             if A.SIDE_AXIS[side] >= nd:
                 continue
